@@ -44,7 +44,7 @@ def iter_ops(rng, nkeys, n):
     return ",".join(ops)
 
 
-def gen_history(rng, hid, nops, weights, big=40000, dircheck=False):
+def gen_history(rng, hid, nops, weights, big=40000, dircheck=False, events=True):
     """weights: dict of relative op weights: put del batch get snap iter compact reopen wait"""
     nkeys = rng.choice([4, 8, 14, 20])
     toks = ["h%s" % hid, rcfg(rng)]
@@ -56,6 +56,8 @@ def gen_history(rng, hid, nops, weights, big=40000, dircheck=False):
     wts = [weights[k] for k in names]
 
     def checkpoint():
+        if events:
+            toks.append("V")
         toks.append("X")
         toks.append("A")
         toks.append("T")
@@ -206,6 +208,29 @@ class DbSuite:
             if bad:
                 prop.append({"case": c, "impl": lib.trunc(il, 2000), "spec": lib.trunc(sl, 2000), "model": "",
                              "detail": str(bad[1]), "at": bad[0]})
+        # step refinement: every installed version change is re-derived by the LSM model
+        stepc = []
+        for c in self.cases:
+            cid = c.split(" ", 1)[0]
+            ops = c.split(" ")[2:]
+            it = impl.get(cid, "").split(" ")[1:]
+            if len(it) != len(ops) or "V" not in ops:
+                continue
+            evs = "|".join(it[i] for i, o in enumerate(ops) if o == "V" and it[i] != "-")
+            if evs:
+                stepc.append((c, "q%d %s" % (len(stepc), evs)))
+        if stepc:
+            sv = lib.run_sharded(lib.DRIVER, "stepcheck", [x[1] for x in stepc], workdir, tag + "q")
+            nsteps = 0
+            for n, (c, sc) in enumerate(stepc):
+                v = sv.get("q%d" % n, "")
+                f = v.split(" ")
+                if len(f) >= 3 and f[2].startswith("steps="):
+                    nsteps += int(f[2][6:])
+                if len(f) < 2 or f[1] != "ok":
+                    corr.append({"case": c, "impl": lib.trunc(sc, 1500), "model": lib.trunc(v, 600), "kind": "step-refinement",
+                                 "detail": "an installed version change is not what the LSM model derives: %s" % lib.trunc(" ".join(f[1:]), 400)})
+            self.stats["steps_refined"] = nsteps
         # the remove_obsolete_files model judges every observed directory
         if gcfacts:
             gv = lib.run_sharded(lib.DRIVER, "gccheck", ["g%d %s" % (n, x[2].split("#", 1)[1]) for n, x in enumerate(gcfacts) if "#" in x[2]], workdir, tag + "g")
